@@ -146,6 +146,7 @@ enum Out {
 
 enum Op {
     FromNested(Vec<Vec<i64>>),
+    FromNestedRef(Vec<Vec<i64>>),
     FromArray(usize, usize, Vec<i64>),
     FromFlat(Vec<i64>, i64, usize, usize),
     Full(i64, usize, usize),
@@ -169,6 +170,10 @@ fn read_op(t: &mut Toks) -> Op {
         "fn" => {
             let k = t.usize();
             Op::FromNested((0..k).map(|_| t.ivec()).collect())
+        }
+        "fb" => {
+            let k = t.usize();
+            Op::FromNestedRef((0..k).map(|_| t.ivec()).collect())
         }
         "fa" => {
             let h = t.usize();
@@ -235,6 +240,14 @@ fn read_op(t: &mut Toks) -> Op {
 fn apply(a: &mut Arr2D<i64>, op: &Op) -> Out {
     match op {
         Op::FromNested(rows) => match Arr2D::try_from(rows.clone()) {
+            Ok(n) => {
+                *a = n;
+                Out::Ok
+            }
+            Err(e) => Out::Err(err_name(&e)),
+        },
+        // the borrowed conversion TryFrom<&Vec<Vec<T>>> has its own body in the crate
+        Op::FromNestedRef(rows) => match Arr2D::<i64>::try_from(rows) {
             Ok(n) => {
                 *a = n;
                 Out::Ok
